@@ -88,14 +88,16 @@ def run_c05(prop, tier):
 def run_c08(prop, tier):
     t0 = time.time()
     q = tier == "quick"
-    sigs = (["KQk", "KRk", "Kkq", "Kkr", "KPk", "KNNk;files=5", "Kknn;files=5", "KQkn;files=4", "KQkr;files=4", "KRkp;files=4", "KRkb;files=4", "KRPkp;files=3"] if q else
-            ["KQk", "KRk", "Kkq", "Kkr", "KPk", "KQkn;files=6", "KQkr;files=6", "KQkb;files=6", "KRkn;files=6", "KRkb;files=6", "KRkp;files=5", "KQkp;files=5", "KBNk;files=5", "KRRk;files=5", "KNNk", "Kknn", "KNNkn;files=5", "KNNkp;files=5", "KRPkp;files=4", "KQPkp;files=4", "KPkpr;files=4", "KBPkp;files=4"])
+    sigs = (["KQk", "KRk", "Kkq", "Kkr", "KPk", "KNNk;files=4", "Kknn;files=4", "KQkn;files=4", "KRkp;files=4", "KRPkp;files=3", "KRRkp;files=4"] if q else
+            ["KQk", "KRk", "Kkq", "Kkr", "KPk", "KQkn;files=6", "KQkr;files=6", "KQkb;files=6", "KRkn;files=6", "KRkb;files=6", "KRkp;files=5", "KQkp;files=5", "KBNk;files=5", "KRRk;files=5", "KNNk", "Kknn", "KNNkn;files=5", "KNNkp;files=5", "KRPkp;files=4", "KQPkp;files=4", "KPkpr;files=4", "KBPkp;files=4", "KRRkp;files=4", "KQRkp;files=4", "KQkpp;files=4", "Kkrrp;files=4"])
     lists = []
     for s in sigs:
         n = 16
         for i in range(n):
-            five = "P" in s and "p" in s
-            lists.append(("mates", 1, ["--sig", "%s;%sshard=%d/%d" % (s, "" if five else "ep=none;", i, n)] + (["--m1every", "16"] if five else [])))
+            head = s.split(";")[0]
+            five = len(head) >= 5 and ("P" in head or "p" in head)
+            both_pawns = "P" in head and "p" in head
+            lists.append(("mates", 1, ["--sig", "%s;%sshard=%d/%d" % (s, "" if both_pawns else "ep=none;", i, n)] + (["--m1every", "64" if len(head) >= 5 and not both_pawns else "16", "--anyevery", "0" if q else "64"] if five else [])))
     lists += [("history", 32, []), ("limits", 16, []), ("depths", 16, []), ("tactics", 32, [])]
     merged = driver.merge(driver.run_jobs(prop, tier, _search_jobs(prop, tier, lists), env=_asan_env()))
     return driver.finish(prop, tier, MC, merged, t0,
